@@ -95,7 +95,7 @@ def generate(prop, rng):
         "C02": [(5, "stage"), (2, "stage_file"), (2, "xfer"), (3, "index_save"), (1, "migrate"), (5, "checkout"), (1, "edit"),
                 (2, "evict"),  # another client's gc removes an object; staging again through the long-lived handle restores it
                 (2, "stage_defer"), (2, "xfer_deferred"), (1, "edit_disk")],
-        "C06": [(5, "stage"), (1, "stage_file"), (2, "xfer"), (2, "index_save"), (1, "migrate"), (6, "gc"), (2, "evict"), (2, "ext_add")],
+        "C06": [(5, "stage"), (1, "stage_file"), (2, "xfer"), (2, "index_save"), (1, "migrate"), (6, "gc"), (2, "evict"), (2, "ext_add"), (2, "future_mtime")],
     }[prop]
     for n in range(nops):
         kind = gen.weighted(rng, weights)
@@ -160,6 +160,10 @@ def generate(prop, rng):
                       reuse_dest=rng.random() < 0.3, twice=rng.random() < 0.3)
         elif kind == "edit":
             op.update(tree=ti, content=rng.randrange(len(pool)), name=rng.choice(gen.NAMES))
+        elif kind == "future_mtime":
+            # an object carries a modification time in the future (store written while the clock was ahead;
+            # mtime travelling with a hard-linked inode)
+            op.update(store=rng.choice(sorted(staged) or ["A"]), pick=rng.random())
         elif kind == "stage_defer":
             # build now, transfer later (other stagings and other people's edits may come in between)
             s_ = rng.choice(md5_stores)
@@ -972,6 +976,22 @@ def op_edit_disk(h, op, n):
     return None
 
 
+def op_future_mtime(h, op, n):
+    s = op["store"]
+    if STORES[s]["kind"] == "remote":
+        return None
+    objs, _ = h.listing(s)
+    if not objs:
+        return None
+    cand = sorted(objs)
+    o = cand[int(op["pick"] * len(cand)) % len(cand)]
+    fp = os.path.join(h.w.p(h.dirname(s)), o[:2], o[2:])
+    t = 4102444800 * 10**9  # 2100-01-01
+    REAL["os.utime"](fp, ns=(t, t))
+    h.ctx.probe("store_object_with_future_mtime")
+    return None
+
+
 def op_ext_add(h, op, n):
     s = op["store"]
     algo = STORES[s]["hash"]
@@ -984,7 +1004,7 @@ def op_ext_add(h, op, n):
 
 
 OPS = {
-    "ext_add": op_ext_add, "stage_defer": op_stage_defer, "xfer_deferred": op_xfer_deferred, "edit_disk": op_edit_disk,
+    "ext_add": op_ext_add, "future_mtime": op_future_mtime, "stage_defer": op_stage_defer, "xfer_deferred": op_xfer_deferred, "edit_disk": op_edit_disk,
     "stage": op_stage, "stage_file": op_stage_file, "xfer": op_xfer, "index_save": op_index_save,
     "migrate": op_migrate, "gc": op_gc, "checkout": op_checkout, "edit": op_edit, "evict": op_evict,
 }  # fmt: skip
